@@ -321,7 +321,7 @@ func c14History(r *ev.Run, p *prng.R, batch, hi int) {
 	if fmt.Sprint(sortedMap(want)) != fmt.Sprint(sortedMap(cacheState)) {
 		r.Violation("C14/cache-differs-from-history", "the cache does not hold the state the notification history leads to", wit(""))
 	}
-	if batch == 0 && r.NeedSample() {
+	if r.NeedSample() {
 		n := len(logs[0])
 		if n > 6 {
 			n = 6
